@@ -20,13 +20,19 @@
   * `same_schema_same_value_from_scripts` — hence two scripts whose reference schemas agree table by table on those
     (multisets of (name, type), indexes up to order, key) have the same value, under either keyword-case option.
 
-  Missing: the "different schema ⇒ different value" direction (needs an explicit collision-freeness hypothesis on the
-  finitely many pre-images); it is decided on every run by the single-element edits of the `hash` suite, where a
-  collision with md5 is the only way the run could wrongly pass.  That elements created and dropped again do not count
+  * `different_schema_different_value` — **the other direction**, under an explicit collision-freeness hypothesis on the
+    finitely many pre-images involved (md5 cannot be injective on all strings; Proofs/HashInj.lean): if `H` and `F` do
+    not collide on the pre-images the two schemas give rise to, digests are non-empty `;`-free texts and no column
+    pre-image is a key / index pre-image, two non-empty reference schemas with the same value have the same number of
+    tables and, table by table in order, the same multiset of column pre-images (escaped name + type) and of key / index
+    pre-images; `..._from_scripts` states it for the values computed for two loaded scripts.  Contrapositive: a table
+    that differs in the name or type of a column, or in an index, gives another value.  The `hash` suite decides the
+    clause for md5 itself on every run by single-element edits (a collision is the only way that run could wrongly pass).  That elements created and dropped again do not count
   follows from the reader forgetting them (C05 state correspondence).
 -/
 import SqlizeModel.Proofs.Hash
 import SqlizeModel.Proofs.HashScripts
+import SqlizeModel.Proofs.HashInj
 import SqlizeModel.Props.C03
 
 namespace Sqlize.C07
@@ -97,6 +103,66 @@ example : C03.exA2.all Stmt.elemSafe = true ∧ C03.exB2.all Stmt.elemSafe = tru
 #guard (do let a ← ReaderMysql.run {} C03.exA2; a.hashValue {}).toOption ==
        (do let b ← ReaderMysql.run {} C03.exB2; b.hashValue { lower := true }).toOption
 #guard (do let a ← ReaderMysql.run {} C03.exA2; a.hashValue {}).toOption.isSome
+
+open Sqlize.Spec in
+/-- different schema ⇒ different value, reference schemas (collision-freeness on the pre-images involved) -/
+theorem different_schema_different_value (H : String → String) (F : String → Int) (g : Globals) (A B : Spec.DB)
+    (hA : A ≠ []) (hB : B ≠ [])
+    (hF : F (";".intercalate (A.map (TableSpec.hashOf H g))) = F (";".intercalate (B.map (TableSpec.hashOf H g))) →
+      ";".intercalate (A.map (TableSpec.hashOf H g)) = ";".intercalate (B.map (TableSpec.hashOf H g)))
+    (hdigT : ∀ t ∈ A ++ B, Digest (t.hashOf H g))
+    (hdig : ∀ t ∈ A ++ B, ∀ x ∈ t.colPre g ++ t.idxPre g, Digest (H x))
+    (hinj : ∀ t ∈ A ++ B, ∀ u ∈ A ++ B, ∀ x ∈ t.colPre g ++ t.idxPre g, ∀ y ∈ u.colPre g ++ u.idxPre g, H x = H y → x = y)
+    (hjoin : ∀ t ∈ A ++ B, ∀ u ∈ A ++ B, H (t.joined H g) = H (u.joined H g) → t.joined H g = u.joined H g)
+    (hdisj : ∀ t ∈ A ++ B, ∀ u ∈ A ++ B, ∀ x ∈ t.colPre g, ∀ y ∈ u.idxPre g, x ≠ y)
+    (h : A.hashOf H F g = B.hashOf H F g) :
+    A.length = B.length ∧ ∀ (i : Nat) (a b : TableSpec), A[i]? = some a → B[i]? = some b →
+      (a.colPre g).Perm (b.colPre g) ∧ (a.idxPre g).Perm (b.idxPre g) :=
+  hashOf_inj H F g A B hA hB hF hdigT hdig hinj hjoin hdisj h
+
+open Sqlize.Spec in
+/-- … for the values `HashValue` computes for two loaded scripts -/
+theorem different_schema_different_value_from_scripts (H : String → String) (F : String → Int) (g : Globals) (rc : Bool)
+    (A B : List Stmt) (dbA dbB : Spec.DB)
+    (hsA : A.all Stmt.elemSafe = true) (hsB : B.all Stmt.elemSafe = true)
+    (htA : A.all Stmt.tablePk = true) (htB : B.all Stmt.tablePk = true)
+    (heA : execAll rc [] A = some dbA) (heB : execAll rc [] B = some dbB)
+    (hA : dbA ≠ []) (hB : dbB ≠ [])
+    (hF : F (";".intercalate (dbA.map (TableSpec.hashOf H g))) = F (";".intercalate (dbB.map (TableSpec.hashOf H g))) →
+      ";".intercalate (dbA.map (TableSpec.hashOf H g)) = ";".intercalate (dbB.map (TableSpec.hashOf H g)))
+    (hdigT : ∀ t ∈ dbA ++ dbB, Digest (t.hashOf H g))
+    (hdig : ∀ t ∈ dbA ++ dbB, ∀ x ∈ t.colPre g ++ t.idxPre g, Digest (H x))
+    (hinj : ∀ t ∈ dbA ++ dbB, ∀ u ∈ dbA ++ dbB, ∀ x ∈ t.colPre g ++ t.idxPre g, ∀ y ∈ u.colPre g ++ u.idxPre g, H x = H y → x = y)
+    (hjoin : ∀ t ∈ dbA ++ dbB, ∀ u ∈ dbA ++ dbB, H (t.joined H g) = H (u.joined H g) → t.joined H g = u.joined H g)
+    (hdisj : ∀ t ∈ dbA ++ dbB, ∀ u ∈ dbA ++ dbB, ∀ x ∈ t.colPre g, ∀ y ∈ u.idxPre g, x ≠ y) :
+    ∃ mA mB, ReaderMysql.run {} A = .ok mA ∧ ReaderMysql.run {} B = .ok mB ∧
+      (mA.hashWith H F g = mB.hashWith H F g →
+        dbA.length = dbB.length ∧ ∀ (i : Nat) (a b : TableSpec), dbA[i]? = some a → dbB[i]? = some b →
+          (a.colPre g).Perm (b.colPre g) ∧ (a.idxPre g).Perm (b.idxPre g)) := by
+  obtain ⟨mA, hmA, hvA⟩ := hash_of_schema H F g rc A dbA hsA htA heA
+  obtain ⟨mB, hmB, hvB⟩ := hash_of_schema H F g rc B dbB hsB htB heB
+  refine ⟨mA, mB, hmA, hmB, ?_⟩
+  intro h
+  rw [hvA, hvB] at h
+  exact hashOf_inj H F g dbA dbB hA hB hF hdigT hdig hinj hjoin hdisj (Except.ok.inj h)
+
+-- the hypotheses of `different_schema_different_value` are satisfiable (a test with a toy digest that spells out the code
+-- points, evaluated, not the theorem): two one-table schemas with permuted columns have the same value, every digest is
+-- a `Digest`, nothing collides, no column pre-image is an index pre-image
+def toyH (s : String) : String := "h" ++ String.join (s.toList.map (fun c => toString c.toNat ++ "."))
+def toyF (s : String) : Int := s.length
+open Sqlize.Spec in
+def toyA : Spec.DB := [{ name := "t", cols := [{ name := "a", typ := "int(11)", opts := [] }, { name := "b", typ := "text", opts := [] }], pk := ["a"], idxs := [{ name := "i_b", cols := ["b"], unique := false }] }]
+open Sqlize.Spec in
+def toyB : Spec.DB := [{ name := "t", cols := [{ name := "b", typ := "text", opts := [] }, { name := "a", typ := "int(11)", opts := [] }], pk := ["a"], idxs := [{ name := "i_b", cols := ["b"], unique := false }] }]
+#guard toyA.hashOf toyH toyF {} == toyB.hashOf toyH toyF {}
+#guard (toyA ++ toyB).all (fun t => decide (Digest (t.hashOf toyH {})))
+#guard (toyA ++ toyB).all (fun t => (t.colPre {} ++ t.idxPre {}).all (fun x => decide (Digest (toyH x))))
+#guard (toyA ++ toyB).all (fun t => (toyA ++ toyB).all (fun u => (t.colPre {} ++ t.idxPre {}).all (fun x =>
+  (u.colPre {} ++ u.idxPre {}).all (fun y => toyH x != toyH y || x == y))))
+#guard (toyA ++ toyB).all (fun t => (toyA ++ toyB).all (fun u => (t.colPre {}).all (fun x => (u.idxPre {}).all (fun y => x != y))))
+#guard (toyA ++ toyB).all (fun t => (toyA ++ toyB).all (fun u =>
+  toyH (t.joined toyH {}) != toyH (u.joined toyH {}) || t.joined toyH {} == u.joined toyH {}))
 
 -- non-vacuity: a permuted column list is a different list with the same digest input multiset
 example : (["b", "a"] : List String).Perm ["a", "b"] := List.Perm.swap _ _ _
